@@ -41,19 +41,12 @@ type Out struct {
 
 // Req is a world request.
 type Req struct {
-	LockSwank bool   `json:"lock_swank"`
-	Steps     []Step `json:"steps"`
+	Steps []Step `json:"steps"`
 }
 
 // Resp is the world's answer; Done counts the steps that returned.
 type Resp struct {
 	Outs []Out `json:"outs"`
-}
-
-func lockSwank() {
-	if p := slip.FindPackage("swank"); p != nil {
-		p.Locked = true
-	}
 }
 
 // loadFormOf asks the object for its load form the way make-load-form does
@@ -181,9 +174,6 @@ func worldMain(args []string) int {
 	if err = json.Unmarshal(data, &req); err != nil {
 		fmt.Fprintln(os.Stderr, err)
 		return 2
-	}
-	if req.LockSwank {
-		lockSwank()
 	}
 	// a runaway recursion is to end the process quickly, not after filling
 	// a gigabyte of stack
